@@ -111,6 +111,9 @@ impl<'a> Reader<'a> {
     fn peek(&mut self) -> u8 {
         if self.begin == self.end {
             self.refill();
+            if self.eof {
+                return 0;
+            }
         }
         self.buf[self.begin]
     }
